@@ -167,6 +167,8 @@ def run_into(ctx, rep, prop):
         rep.merge(d, "operations_after_failed_calls")
     for d in ctx.pmap(derived_shard, [(prop, ctx.seed)]):
         rep.merge(d, "copies_used_after_their_source")
+    for d in ctx.pmap(container_shard, [(prop, ctx.seed)]):
+        rep.merge(d, "returned_lists_and_dicts_edited_by_the_caller")
     if chains(prop):
         for d in ctx.pmap(chain_shard, [(prop, ctx.seed)]):
             rep.merge(d, "derivation_chains_of_%d_steps" % CHAIN_LEN)
@@ -540,4 +542,79 @@ def derived_shard(args):
     prop, seed = args
     acc = Acc(seed=seed)
     check_derived_after_use(acc, prop)
+    return acc.export()
+
+
+# ---- containers handed out by the library belong to the caller ------------------------------------------------------------------
+
+
+def _wreck(x):
+    """Edits a returned list / dict in place, deeply (one level)."""
+    try:
+        if isinstance(x, list):
+            for y in x:
+                if isinstance(y, (list, dict)):
+                    _wreck(y)
+            x.reverse()
+            x.append("JUNK")
+            if len(x) > 2:
+                del x[1]
+        elif isinstance(x, dict):
+            x["fg"] = 35
+            x["JUNK"] = True
+            x.pop("bold", None)
+    except Exception:  # noqa
+        pass
+
+
+def check_returned_containers(acc, prop):
+    """Lists and dicts returned by public calls (divides, shared_atts, split / splitlines / linesplit results, escseqparse.parse) are
+    edited in place by the caller; afterwards every operation of the property's menu - on the same value and on a fresh equal one - must
+    give what it gave before."""
+    from curtsies import escseqparse
+    from curtsies.formatstring import linesplit
+
+    getters = [
+        ("f.divides", lambda f: f.divides), ("f.shared_atts", lambda f: f.shared_atts), ("f.split(' ')", lambda f: f.split(" ")), ("f.splitlines()", lambda f: f.splitlines()),
+        ("linesplit(f, 5)", lambda f: linesplit(f, 5)), ("linesplit(f.s, 5)", lambda f: linesplit(f.s, 5)), ("escseqparse.parse(str(f))", lambda f: escseqparse.parse(str(f))),
+        ("escseqparse.parse(f.s)", lambda f: escseqparse.parse(f.s)), ("list(f.width_aware_splitlines(3))", lambda f: list(f.width_aware_splitlines(3))),
+    ]
+    for vi, spec in enumerate(values()):
+        if vi in (4, 7):
+            continue
+        shown = C.show_spec(spec[:4])
+        menu = ops(prop)
+        base = []
+        for label, fn in menu:
+            try:
+                base.append(plain(fn(C.build(spec))))
+            except Exception as ex:  # noqa
+                base.append(("exc", type(ex).__name__))
+        for gl, g in getters:
+            f = C.build(spec)
+            for rnd in range(2):  # the second round edits what a possibly cached call hands out again
+                try:
+                    _wreck(g(f))
+                except Exception:  # noqa
+                    pass
+            for (label, fn), want in zip(menu, base):
+                case = {"value": {"characters": sum(len(t) for t, _ in spec), "first_runs": shown}, "edited_in_place": "the result of " + gl, "op": label}
+                acc.case(True, key=("owned", prop, vi, gl, label), sample=case)
+                acc.transitions += 1
+                for who, obj in (("the same object", f), ("a fresh equal object", C.build(spec))):
+                    try:
+                        r = plain(fn(obj))
+                    except Exception as ex:  # noqa
+                        r = ("exc", type(ex).__name__)
+                    if r != want:
+                        acc.failure("%s:result_differs_after_a_returned_container_was_edited:%s" % (prop, label.split("(")[0]), dict(case, on=who), "before %r, now %r" % (str(want)[:160], str(r)[:160]))
+                        break
+
+
+def container_shard(args):
+    from mc.runner import Acc
+
+    prop, seed = args
+    acc = Acc(seed=seed)
+    check_returned_containers(acc, prop)
     return acc.export()
